@@ -1584,3 +1584,28 @@ func lemmaSliceConcat(seq Sequence, c int) Sequence {
 //@   assigns nothing
 //@   loop 1: invariant fresh(rr) && len(rr) == len(ff)
 //@   loop 1: decreases len(ff) - i
+
+// The complement of a region made of segments: the segments in reverse order, each with its
+// ends swapped (the middle one of an odd number included).
+//@ func (rr Regions) Complement() (out Region)
+//@   prop C05 C08
+//@   requires forall k in 0..len(rr): is(rr[k], Segment)
+//@   ensures is(out, Regions) && len(out.(Regions)) == len(rr) && fresh(out.(Regions))
+//@   ensures mirrored: forall k in 0..len(rr): is(out.(Regions)[len(rr)-1-k], Segment) &&
+//@      out.(Regions)[len(rr)-1-k].(Segment)[0] == rr[k].(Segment)[1] && out.(Regions)[len(rr)-1-k].(Segment)[1] == rr[k].(Segment)[0]
+//@   assigns nothing
+//@   loop 1: invariant fresh(ret) && len(ret) == len(rr)
+//@   loop 1: invariant forall k in 0..i: is(ret[len(rr)-1-k], Segment) && ret[len(rr)-1-k].(Segment)[0] == rr[k].(Segment)[1] && ret[len(rr)-1-k].(Segment)[1] == rr[k].(Segment)[0]
+//@   loop 1: decreases len(rr) - i
+
+// Head and Tail of a region made of segments: the 5' end of the first, the 3' end of the last.
+//@ func (rr Regions) Head() (h int)
+//@   prop C08 C15
+//@   requires forall k in 0..len(rr): is(rr[k], Segment)
+//@   ensures h == ite(len(rr) > 0, rr[0].(Segment)[0], 0)
+//@   assigns nothing
+//@ func (rr Regions) Tail() (t int)
+//@   prop C08 C15
+//@   requires forall k in 0..len(rr): is(rr[k], Segment)
+//@   ensures t == ite(len(rr) > 0, rr[len(rr)-1].(Segment)[1], 0)
+//@   assigns nothing
